@@ -144,6 +144,9 @@ impl AEADBodyCodec {
                     self.state = DecodeState::Body(padding, length)
                 }
                 DecodeState::Body(padding, length) => {
+                    if length < padding + self.auth.cipher.tag_size() {
+                        return Err(aead::Error);
+                    }
                     if src.remaining() < length {
                         break;
                     }
